@@ -234,8 +234,8 @@ func init() {
 		Technique: "structural rules on the default arm of every decoder (rewind, Skip, exact slice append under !DiscardUnknown, advance), on marshal/size unknown blocks, on GetUnknown/SetUnknown, and the option mapping of DiscardUnknown",
 		DesignRef: "DESIGN.md 4 C14",
 		LevelText: "For every generated type: the decoder has exactly one arm per schema field (so no known field reaches the default arm and no unknown number is decoded as a field); the default arm rewinds to the record start, measures the record with runtime.Skip (whose per-wire-type advance is decided in C15), appends exactly dAtA[start:start+n] to x.unknownFields iff !options.DiscardUnknown, and advances by n; options come from runtime.UnmarshalInputToOptions which maps the flag and is handed to every nested decode; marshal writes x.unknownFields first into the back-filled buffer (last on the wire) verbatim and size counts len(x.unknownFields); GetUnknown/SetUnknown read and replace exactly that field. Not decided: a known number arriving with a foreign wire type is rejected, not kept as unknown (outside well-typed streams).",
-		Engines:      E{codec.RunDec, codec.RunEnc, codec.RunSize, codec.RunUnkAccessors, codec.RunOpts, codec.RunSkip},
-		RulePrefixes: []string{"UNK", "DEC.cases", "DEC.flags", "DEC.walk", "ENC.unknown", "ENC.order", "ENC.walk", "SIZE.unknown", "SIZE.walk", "OPTS.discard", "L.skip", "G.model", "G.anchor", "GEN.build"},
+		Engines:      E{codec.RunDec, codec.RunEnc, codec.RunSize, codec.RunUnkAccessors, codec.RunOpts, codec.RunSkip, refl.RunCoh},
+		RulePrefixes: []string{"COH.msgindex", "UNK", "DEC.cases", "DEC.flags", "DEC.walk", "ENC.unknown", "ENC.order", "ENC.walk", "SIZE.unknown", "SIZE.walk", "OPTS.discard", "L.skip", "G.model", "G.anchor", "GEN.build"},
 		Floors: []core.Floor{
 			{Rule: "UNK.default", Min: 50, Why: "message types"},
 			{Rule: "UNK.accessors", Min: 100, Why: "2 per message type"},
@@ -300,8 +300,8 @@ func init() {
 		Technique: "taint-style rules on the decode interpreter (payload bytes may only flow through string conversion, copy into a fresh buffer, spread-append, or the nested decoder), store scan on the input buffer, buffer provenance of marshal, effect analysis of all read-only entry points",
 		DesignRef: "DESIGN.md 3.10, 4 C07",
 		LevelText: "Decoders: in every arm the payload slice dAtA[i:end] flows only into string(...), copy into make([]byte, len) / append(x.F[:0], ...), the spread operand of append onto x.unknownFields, the element-count pre-pass, or options.Unmarshal for the nested message (same rule by induction; protobuf-go copies: A3); any other use (stored, appended as an element, captured) is reported; no statement stores, copies or appends into the input buffer. Encoders: the output is make([]byte, size) filled only by byte stores/copy/PutUint and returned as append(input.Buf, dAtA...) or dAtA. Read-only calls (Size, Marshal, Has, Get, Range, WhichOneof, getters, String, view reads): PURE shows they perform no store to memory reachable from the message, parameters or globals (down to nil-vs-empty: no store at all). Not decided: proto.Equal itself is library code (A3).",
-		Engines:      E{codec.RunDec, codec.RunEnc, refl.RunPure},
-		RulePrefixes: []string{"ALIAS", "PURE", "ENC.frame", "ENC.walk", "DEC.walk", "UNK.default", "G.model", "G.anchor", "GEN.build"},
+		Engines:      E{codec.RunDec, codec.RunEnc, refl.RunPure, refl.RunCoh},
+		RulePrefixes: []string{"COH.msgindex", "ALIAS", "PURE", "ENC.frame", "ENC.walk", "DEC.walk", "UNK.default", "G.model", "G.anchor", "GEN.build"},
 		Floors: []core.Floor{
 			{Rule: "ALIAS.in", Min: 60, Why: "string/bytes fields in all positions"},
 			{Rule: "ALIAS.nowrite", Min: 50, Why: "message types"},
